@@ -270,11 +270,12 @@ class AsyncStreamEndpoint(_transports.AsyncBaseTransport, Generic[_T_SentPacket,
         """
         Closes the endpoint.
         """
-        with self.__send_guard:
-            try:
-                await self.__transport.aclose()
-            finally:
-                self.__receiver.clear()
+        # NOTE: Do not take the send guard. Closing must be possible while another task is blocked in send_packet()
+        #       (e.g. the peer does not read), especially when the close is forced by a cancellation.
+        try:
+            await self.__transport.aclose()
+        finally:
+            self.__receiver.clear()
 
     async def send_packet(self, packet: _T_SentPacket) -> None:
         """
